@@ -34,6 +34,9 @@ pub struct StreamRun {
     pub decode_calls: usize,
     /// quit / quitq seen: the connection layer would stop here
     pub quit_at: Option<usize>,
+    /// stream offset at which the first not yet completed frame starts (end of the last completed request)
+    pub next_frame_offset: usize,
+    pub fed: usize,
 }
 
 /// Feed `stream` to a fresh decode loop in chunks ending at `cuts` (sorted stream offsets).
@@ -119,6 +122,8 @@ pub fn run_stream(l1: &mut L1, stream: &[u8], cuts: &[usize], stop_at_quit: bool
         run.panic = Some(crate::panics::payload_to_string(&p));
     }
     run.out = out.to_vec();
+    run.next_frame_offset = frame_start;
+    run.fed = fed;
     run.leftover = buf.len();
     run.leftover_offset = fed.saturating_sub(buf.len());
     run
